@@ -680,6 +680,32 @@ func optionsPlan(tier string) []Unit {
 			}
 		}
 	}
+	// batches produced ahead of decoding (a transport queue between producer and consumer), and
+	// the history alphabet of every signal, under a reduced option product
+	for _, sig := range sigs() {
+		alpha := historyAlphabet(sig, false)
+		var oset []Options
+		for _, d := range []string{"none", "u8", ""} {
+			for _, z := range []int{0, 1} {
+				o := DefaultOptions()
+				o.Dict, o.Zstd = d, z
+				oset = append(oset, o)
+			}
+		}
+		for _, ord := range [][3]int{{1, 1, 1}, {3, 2, 3}, {6, 3, 4}} {
+			o := DefaultOptions()
+			o.Span, o.Attrs16, o.Attrs32 = ord[0], ord[1], ord[2]
+			oset = append(oset, o)
+		}
+		for _, o := range oset {
+			for _, h := range histories(alpha[:8], 2) {
+				units = append(units, Unit{Opts: o, Mon: mon, Tag: "pipelined-" + sig, History: append(append([]Letter{}, h...), h[0], h[1]), Pipelined: true})
+			}
+			for i := range alpha {
+				units = append(units, Unit{Opts: o, Mon: mon, Tag: "alphabet-" + sig, History: fixRamps([]Letter{alpha[i], alpha[(i+1)%len(alpha)], alpha[i]})})
+			}
+		}
+	}
 	// every attribute ordering over the type-mix letters (the sorters compare values of different types)
 	for _, sig := range sigs() {
 		ml := mixLetters(sig, 1)
@@ -1044,6 +1070,18 @@ func allocPlan(tier string) []Unit {
 			}
 			g := groupLetters(sig)
 			units = append(units, Unit{Opts: o, Mon: mon, Tag: "group-" + sig, History: []Letter{g[0], g[1], g[0]}})
+		}
+		// the statistics call (it zeroes the producer's stream counters) at any point of a short history
+		for _, h := range histories(alpha[:8], 2) {
+			rs := Letter{Op: "resetstats"}
+			units = append(units, Unit{Opts: DefaultOptions(), Mon: mon, Tag: "statsreset-" + sig, History: []Letter{h[0], rs, h[1]}},
+				Unit{Opts: DefaultOptions(), Mon: mon, Tag: "statsreset-" + sig, History: []Letter{h[0], h[1], rs, h[0]}},
+				Unit{Opts: DefaultOptions(), Mon: mon, Tag: "statsreset-" + sig, History: []Letter{h[0], rs, h[0], h[1], rs}})
+		}
+		// every archetype alone and after a warm-up (numeric extremes, invalid UTF-8, ...)
+		for it := 0; it < numItems(sig); it++ {
+			units = append(units, Unit{Opts: DefaultOptions(), Mon: mon, Tag: "single-" + sig, History: []Letter{one(sig, 1, 1, it)}},
+				Unit{Opts: DefaultOptions(), Mon: mon, Tag: "single-" + sig, History: []Letter{alpha[10], one(sig, 2, 3, it, it)}})
 		}
 		// error paths: a refused batch in the middle of a history
 		after := one(sig, 1, 1, 1, 0)
